@@ -104,6 +104,77 @@ fn cancellation_templates(c: char) -> [Vec<char>; 4] {
     ]
 }
 
+/// The rest of the public surface an application touches on the way: the typed errors are
+/// values a caller prints and compares (Display, Debug, PartialEq, std::error::Error), and a
+/// profile that keeps the default `Rules` methods gets a typed error from each of them.
+pub fn misc_surface(strs: &[String], st: &mut Stats) {
+    use precis_core::profile::{Profile, Rules};
+    use precis_core::{CodepointInfo, Error, UnexpectedError};
+    struct Plain;
+    impl Rules for Plain {}
+    let show_err = |e: &Error| -> Result<(), String> {
+        guard(|| {
+            let text = format!("{} | {:?} | {:?}", e, e, std::error::Error::source(e).map(|x| x.to_string()));
+            let _ = (text.len(), e == e);
+        })
+    };
+    for s in strs {
+        st.states += 1;
+        for k in 0..5 {
+            st.evaluations += 1;
+            st.transitions += 1;
+            let r = guard(|| match k {
+                0 => Plain.width_mapping_rule(s.as_str()).map(|c| c.into_owned()),
+                1 => Plain.additional_mapping_rule(s.as_str()).map(|c| c.into_owned()),
+                2 => Plain.case_mapping_rule(s.clone()).map(|c| c.into_owned()),
+                3 => Plain.normalization_rule(s.as_str()).map(|c| c.into_owned()),
+                _ => Plain.directionality_rule(s.clone()).map(|c| c.into_owned()),
+            });
+            match r {
+                Err(p) => st.violation("panic", || Case::new("default_rule").s(s).n(k), "a typed error".into(), format!("PANIC({})", p)),
+                Ok(_) => {} // Ok or a typed error: both are what the property asks for
+            }
+        }
+        // every error the profiles produce for this string can be printed and compared
+        macro_rules! errs {
+            ($t:ty) => {{
+                let p = <$t>::new();
+                for r in [guard(|| p.prepare(s.as_str()).map(|_| ())), guard(|| p.enforce(s.as_str()).map(|_| ())), guard(|| p.compare(s.as_str(), "a").map(|_| ()))] {
+                    st.evaluations += 1;
+                    if let Ok(Err(e)) = r {
+                        if let Err(pm) = show_err(&e) {
+                            st.violation("panic", || Case::new("error_value").s(s), "Display / Debug / source / == of the error return complete".into(), format!("PANIC({})", pm));
+                        }
+                    }
+                }
+            }};
+        }
+        errs!(precis_profiles::Nickname);
+        errs!(precis_profiles::OpaqueString);
+        errs!(precis_profiles::UsernameCaseMapped);
+        errs!(precis_profiles::UsernameCasePreserved);
+    }
+    // hand-built error values at the extremes of their fields
+    for cp in [0u32, 0x41, 0x10FFFF, 0x110000, u32::MAX] {
+        for pos in [0usize, 1, usize::MAX / 2, usize::MAX] {
+            for dp in DP::ALL {
+                st.evaluations += 1;
+                let mk = |k: u8| match k {
+                    0 => Error::BadCodepoint(CodepointInfo::new(cp, pos, dp.to_impl())),
+                    1 => Error::Unexpected(UnexpectedError::ContextRuleNotApplicable(CodepointInfo::new(cp, pos, dp.to_impl()))),
+                    _ => Error::Unexpected(UnexpectedError::MissingContextRule(CodepointInfo::new(cp, pos, dp.to_impl()))),
+                };
+                for k in 0..3u8 {
+                    if let Err(pm) = show_err(&mk(k)) {
+                        st.violation("panic", || Case::new("error_value").n(cp as u64).n(pos as u64).n(k as u64), "Display / Debug of a hand-built error value".into(), format!("PANIC({})", pm));
+                    }
+                }
+            }
+        }
+    }
+    st.count("out:misc-surface");
+}
+
 /// the operations that reach every table lookup: enforce and compare of each profile, allows
 pub fn core_ops(s: &str, chars: &[char], st: &mut Stats) {
     watch::enter("ops", chars);
@@ -254,6 +325,14 @@ pub fn run(_env: &Env, run: &Run) -> (Stats, Coverage) {
         s3.count("out:stabilize-returned");
         st.merge(s3);
     }
+    // (b'') default rule methods, printing and comparing of error values
+    {
+        let sig3 = crate::sig::rotated(_env, sigma01(), run.seed);
+        let strs = all_strings(&sig3, 2);
+        let mut s4 = Stats::default();
+        misc_surface(&strs, &mut s4);
+        st.merge(s4);
+    }
     // (c)+(d) string tree: all operations; context rules at every position for short strings
     let sigma = crate::sig::rotated(_env, sigma01(), run.seed);
     let n = run.tier.pick(3, 4);
@@ -352,6 +431,10 @@ pub fn replay(_env: &Env, case: &Case) -> Vec<Violation> {
             owned_rule_ops(&s, &mut all);
             // keep the violations of the same operation when one is named
             st.violations = all.violations.into_iter().filter(|v| case.op == "ops" || v.case.extra == case.extra).collect();
+        }
+        "default_rule" | "error_value" => {
+            let strs = if case.strs.is_empty() { vec![] } else { vec![case.str_at(0).to_string()] };
+            misc_surface(&strs, &mut st);
         }
         "stabilize" => {
             st.violations = crate::props::c13::replay(_env, case).into_iter().filter(|v| v.kind == "panic").collect();
